@@ -2391,6 +2391,7 @@ lx_harness! {
 }
 lx_eval_string_lite_harness!(2, 8, 5, lx_eval_string_lite_n2, Txt::ascii_exact());
 lx_eval_string_lite_harness!(3, 8, 5, lx_eval_string_lite_n3, Txt::ascii_exact());
+lx_eval_string_lite_harness!(4, 8, 6, lx_eval_string_lite_n4, Txt::ascii_exact());
 lx_eval_string_harness!(3, 16, 5, lx_eval_string_k3, Txt::any(PFX, &[]));
 lx_eval_string_harness!(2, 12, 5, lx_eval_string_k2, Txt::any(PFX, &[]));
 // exactly n ASCII characters at constant byte positions (cheap enough for the quick tier)
